@@ -49,9 +49,9 @@ def key_of(stream, c, back):
         d = enc.lookup.data
         return {"ord": list(d.keys()), "ix": list(d.values()), "la": enc.last_assigned_index, "lu": enc.last_reused_index}
 
-    rep = [back.get(id(t), None) if t is not None else ["none"] for t in stream.repeated_terms]
+    rep = [back(t, i) if t is not None else ["none"] for i, t in enumerate(stream.repeated_terms)]
     if any(r is None for r in rep):
-        raise AttributeError("Stream.repeated_terms does not hold the term objects of the previous statement")
+        raise AttributeError("Stream.repeated_terms does not hold the terms of the previous statement")
     return {"N": tab(stream.encoder.names), "P": tab(stream.encoder.prefixes), "D": tab(stream.encoder.datatypes),
             "rep": rep, "gcur": ["none"], "buf": (len(stream.flow) if c["FrameSize"] else 0)}
 
@@ -91,17 +91,21 @@ def walk(c: dict, pools: dict, max_transitions=10**7, body_max=2, integ="generic
     ptype = c["PType"]
     calls = calls_of(c, pools, body_max)
     sub = writer.Subst()
-    # real term objects, one per model term, so that repeated_terms can be mapped back
-    objs = {}
-    back = {}
+    # every call gets FRESH term objects (equal to, never identical with, those of earlier calls -- what a caller reading a file line by line
+    # produces); the terms a stream remembers are mapped back to model terms by VALUE
+    by_value = {}
 
     def obj(t):
-        k = json.dumps(t)
-        if k not in objs:
-            o = writer.to_impl_term(writer.abs_term(t, sub), integ)
-            objs[k] = o
-            back[id(o)] = t
-        return objs[k]
+        a = writer.abs_term(t, sub)
+        by_value[repr(a)] = t
+        return writer.to_impl_term(a, integ)
+
+    def back(o, slot):
+        try:
+            a = terms.from_generic(o) if integ == "generic" else terms.from_rdflib(o, graph_position=(slot == 3))
+        except Exception:  # noqa: BLE001
+            return None
+        return by_value.get(repr(a))
 
     root = make_stream(c, integ)
     seen = {canon(key_of(root, c, back)): root}
@@ -114,8 +118,6 @@ def walk(c: dict, pools: dict, max_transitions=10**7, body_max=2, integ="generic
             k0 = key_of(st0, c, back)
             for ops in calls:
                 s2 = copy.deepcopy(st0)
-                # the deep copy duplicated the term objects held in repeated_terms: point them back at the shared ones
-                s2.repeated_terms = list(st0.repeated_terms)
                 before = len(s2.flow)
                 frames = []
                 raised = None
